@@ -407,6 +407,23 @@ let handle (req : sexp) : String.t =
         let cv = (match ceval fops float_of_z c_fmod rho e with CI z -> float_of_z z | CD d -> d) in
         jobj ["c", jfloat cv; "real", jfloat (eval fops rho e); "safe", jbool (c_safe e); "int", jbool (is_int e)] in
       jobj ["status", jstr "ok"; "values", jlist one (lst es)]
+  | L [A "symrhs"; A tries; inp] ->
+      (* sympytools.rhs_matrix / jacobi_matrix of the mirror, evaluated at an input point *)
+      let o = the_ode () in
+      (match sorted_states o with
+       | None -> jobj ["status", jstr "cycle"]
+       | Some ss ->
+         let inp = inputs_of inp in
+         let mt = (match tries with "default" -> default_tries o | t -> nat_of_int (int_of_string t)) in
+         let rho x = (match base o ss inp false x with Some v -> v | None -> nan) in
+         (match rhs_matrix o mt with
+          | None -> jobj ["status", jstr "ok"; "rhs", "null"; "jac", "null"]
+          | Some es ->
+            let jac = (match jacobian o mt with Some j -> j | None -> []) in
+            jobj ["status", jstr "ok";
+                  "rhs", jlist (fun e -> jfloat (eval fops rho e)) es;
+                  "expanded", jbool (not (List.exists (mentions_inter o) es));
+                  "jac", jlist (fun row -> jlist (fun e -> jfloat (eval fops rho e)) row) jac]))
   | L [A "evalclosed"; es] ->
       let vals = List.map (fun e -> eval fops (fun _ -> nan) (expr_of e)) (lst es) in
       jobj ["status", jstr "ok"; "values", jlist jfloat vals]
